@@ -201,6 +201,25 @@ def r_F23():
     return len(outs) > 1
 
 
+def r_F24():
+    import prettyprinter as pp
+    pp.install_extras(['dataclasses'], warn_on_error=False)
+
+    class Lazy:
+        def __getattr__(self, name):
+            child = Lazy()
+            self.__dict__[name] = child
+            return child
+
+        def __repr__(self):
+            return 'Lazy(%s)' % ', '.join(sorted(self.__dict__))
+    v = Lazy()
+    with warnings.catch_warnings():
+        warnings.simplefilter('ignore')
+        pp.pformat([v])
+    return bool(v.__dict__)
+
+
 def r_F7():
     import enum
     import prettyprinter as pp
